@@ -15,6 +15,7 @@ import (
 	apiutils "github.com/wrgl/wrgl/pkg/api/utils"
 	"github.com/wrgl/wrgl/pkg/encoding/packfile"
 	"github.com/wrgl/wrgl/pkg/objects"
+	"github.com/wrgl/wrgl/pkg/ref"
 	"github.com/wrgl/wrgl/pkg/verifhook"
 	"pgregory.net/rapid"
 
@@ -318,6 +319,70 @@ func run(c Case) (o evid.Outcome, err error) {
 			}
 			points++
 		}
+	}
+	// ---- another operation on what an interrupted prune left behind: a commit that prune was
+	// about to remove may still be stored while its table is already gone; merging it into a branch
+	// must be refused (or give a branch whose head has its table) - branches written by merge never
+	// point at a commit lacking its table
+	if c.Op == "prune" && !c.Subproc {
+		// the commits the deleted branch had
+		if err := w.restore(); err != nil {
+			return o, fmt.Errorf("HARNESS: restore: %v", err)
+		}
+		var orphans []string
+		{
+			db, rs, closeFn, err := w.repo.Open()
+			if err != nil {
+				return o, fmt.Errorf("HARNESS: %v", err)
+			}
+			keep := map[string]bool{}
+			refs, _ := ref.ListAllRefs(rs)
+			var stack [][]byte
+			for _, v := range refs {
+				stack = append(stack, v)
+			}
+			for len(stack) > 0 {
+				sm := stack[len(stack)-1]
+				stack = stack[:len(stack)-1]
+				if keep[string(sm)] {
+					continue
+				}
+				keep[string(sm)] = true
+				if com, err := objects.GetCommit(db, sm); err == nil {
+					stack = append(stack, com.Parents...)
+				}
+			}
+			all, _ := objects.GetAllCommitKeys(db)
+			for _, k := range all {
+				if !keep[string(k)] {
+					orphans = append(orphans, fmt.Sprintf("%x", k))
+				}
+			}
+			closeFn()
+		}
+		merged := 0
+		for n := 1; n <= total; n++ {
+			for oi, orphan := range orphans {
+				if err := w.restore(); err != nil {
+					return o, fmt.Errorf("HARNESS: restore: %v", err)
+				}
+				verifhook.SetPlan(verifhook.Plan{FailAt: n, Dead: true})
+				w.repo.Run(w.args...)
+				verifhook.SetPlan(verifhook.Plan{})
+				margs := []string{"merge", "main", orphan, "-n", "1"}
+				if (n+oi)%2 == 1 {
+					margs = append(margs, "--no-ff")
+				}
+				_, merr := w.repo.Run(margs...)
+				if merr == nil {
+					merged++
+				}
+				if _, err := w.inspect(true); err != nil {
+					return o, fmt.Errorf("prune killed at storage write %d of %d, then `wrgl %s` (error: %v): %v", n, total, strings.Join(margs, " "), merr, err)
+				}
+			}
+		}
+		evid.Count("merges of a formerly unreachable commit after an interrupted prune", merged)
 	}
 	// ---- read faults: the n-th read of an object fails once (verif hook in the object store).
 	// The command must fail - leaving a consistent repository on which the same command then
